@@ -75,6 +75,22 @@ structure Params where
   noticePeriod : Nat
   deriving Repr, Inhabited
 
+/-- the x/sequencer module parameters (`MsgUpdateParams` rewrites them: `Op.setSeqParams`); the x/rollapp
+    ones (`dispute`, `lsBlocks`, `lsInterval`) stay in `Params` and are constant over a history -/
+structure SeqParams where
+  noticePeriod : Nat
+  kickThr : Nat
+  lsMul : Dec
+  lsAbs : Nat
+  dishonorSU : Nat
+  dishonorL : Nat
+  deriving Repr, Inhabited
+
+/-- the sequencer part of the initial parameter set -/
+def Params.seq (p : Params) : SeqParams :=
+  { noticePeriod := p.noticePeriod, kickThr := p.kickThr, lsMul := p.lsMul, lsAbs := p.lsAbs,
+    dishonorSU := p.dishonorSU, dishonorL := p.dishonorL }
+
 structure QEntry where
   ch : Nat          -- creation height
   ra : Nat          -- rollapp id
@@ -84,7 +100,8 @@ structure QEntry where
 structure St where
   h : Nat
   t : Nat
-  p : Params
+  p : Params                       -- as given at genesis; the x/rollapp part is what the handlers read
+  sqp : SeqParams                  -- x/sequencer params in force (initially `p.seq`)
   ras : List Rollapp
   seqs : List Seq
   queue : List QEntry              -- sorted by (ch, ra)
@@ -488,7 +505,7 @@ def seqAfterUpdate (s : St) (m : UpdMsg) (isLast : Bool) : M St :=
   match getSeq s m.sender with
   | none => .error .internal
   | some prop =>
-    let prop1 := { prop with dishonor := prop.dishonor - min s.p.dishonorSU prop.dishonor }
+    let prop1 := { prop with dishonor := prop.dishonor - min s.sqp.dishonorSU prop.dishonor }
     if isLast then onProposerLastBlock (setSeq s prop1) prop1 else .ok (setSeq s prop1)
 
 /-- `MsgUpdateState` handler (x/rollapp/keeper/msg_server_update_state.go) -/
@@ -574,8 +591,8 @@ def unbond (s : St) (a : Addr) : M St :=
       if isProposer s q then
         if !forkLatestAllowed r then .error .forkNotAllowed else
         if noticeInProgress q s.t then .error .noticeInProgress else
-        .ok (setSeq { s with nq := insertSorted ltPair (s.t + s.p.noticePeriod, a) s.nq }
-                    { q with optedIn := false, notice := some (s.t + s.p.noticePeriod) })
+        .ok (setSeq { s with nq := insertSorted ltPair (s.t + s.sqp.noticePeriod, a) s.nq }
+                    { q with optedIn := false, notice := some (s.t + s.sqp.noticePeriod) })
       else
         match tryUnbond s { q with optedIn := false } q.tokens with
         | .error e => .error e
@@ -609,7 +626,7 @@ def kick (s : St) (a : Addr) : M St :=
         | none => .error .notKickable
         | some prop =>
           if a = pa then .error .notKickable else
-          if !(s.p.kickThr ≤ prop.dishonor) then .error .notKickable else
+          if !(s.sqp.kickThr ≤ prop.dishonor) then .error .notKickable else
           let s2 := abruptRemoveProposer s r.id
           match hardForkToLatest s2 r.id with
           | .error e => .error e
@@ -626,6 +643,36 @@ def punish (s : St) (a : Addr) (rewardee : Option Addr) : M St :=
     match slash s q q.tokens mul rewardee with
     | .error e => .error e
     | .ok (s1, q1) => .ok (setSeq s1 q1)
+
+/-- the standalone governance `PunishSequencerProposal` (x/sequencer/proposal_handler.go
+    `HandlePunishSequencerProposal`, a legacy gov route: x/gov's `ExecLegacyContent` checks the authority,
+    then the handler calls `PunishSequencer`): the punishment of a fraud proposal WITHOUT any fork — the
+    punished sequencer keeps its status and its role (a punished proposer stays proposer with bond 0). -/
+def punishProposal (s : St) (authOk : Bool) (a : Addr) (rewardee : Option Addr) : M St :=
+  if !authOk then .error .unauthorized else punish s a rewardee
+
+/-- x/rollapp `msgServer.TransferOwnership`: unknown rollapp; signer is not the owner ⇒ unauthorized;
+    same owner ⇒ error; the new owner is an address the bank refuses as a recipient (`blockedAddr`: the
+    owner receives the rollapp's incentives, a failing payout would fail the whole block) ⇒ invalid
+    request; else `owner := newOwner` and nothing else. -/
+def transferOwner (s : St) (signer : Addr) (ra : Nat) (newOwner : Addr) : M St :=
+  match getRa s ra with
+  | none => .error .unknownRollapp
+  | some r =>
+    if r.owner != signer then .error .unauthorized else
+    if r.owner == newOwner then .error .invalid else
+    if blockedAddr newOwner then .error .invalid else
+    .ok (setRa s { r with owner := newOwner })
+
+/-- x/sequencer `MsgUpdateParams`: authority; `Params.ValidateBasic` (notice period positive, multiplier
+    within [0, 1]) and the keeper's `ValidateParams` (kick threshold not 0); then the stored parameter set is
+    replaced as a whole.  Nothing else changes: records keep the notice times they were given. -/
+def setSeqParams (s : St) (authOk : Bool) (sp : SeqParams) : M St :=
+  if !authOk then .error .unauthorized else
+  if sp.noticePeriod = 0 then .error .invalid else
+  if sp.lsMul.raw < 0 || 1000000000000000000 < sp.lsMul.raw then .error .invalid else
+  if sp.kickThr = 0 then .error .invalid else
+  .ok { s with sqp := sp }
 
 /-- `MsgRollappFraudProposal` -/
 def fraud (s : St) (authOk : Bool) (ra h rev : Nat) (pun : Option Addr) (rewardee : Option Addr) : M St :=
@@ -724,9 +771,9 @@ def slashLiveness (s : St) (r : Rollapp) : M St :=
     match getSeq s a with
     | none => .ok s   -- GetProposer falls back to the sentinel
     | some q =>
-      match slash s q (min q.tokens (max s.p.lsAbs ((s.p.lsMul.mulInt q.tokens).truncateInt).toNat)) ⟨0⟩ none with
+      match slash s q (min q.tokens (max s.sqp.lsAbs ((s.sqp.lsMul.mulInt q.tokens).truncateInt).toNat)) ⟨0⟩ none with
       | .error e => .error e
-      | .ok (s1, q1) => .ok (setSeq s1 { q1 with dishonor := q1.dishonor + s1.p.dishonorL })
+      | .ok (s1, q1) => .ok (setSeq s1 { q1 with dishonor := q1.dishonor + s1.sqp.dishonorL })
 
 /-- `HandleLivenessEvent` (inside ApplyFuncIfNoError: on error nothing changes) -/
 def handleLivenessEvent (s : St) (ra : Nat) : St :=
@@ -765,6 +812,9 @@ inductive Op
   | update (m : UpdMsg)
   | fraud (authOk : Bool) (ra h rev : Nat) (pun : Option Addr) (rewardee : Option Addr)
   | obsolete (authOk : Bool) (vs : List Nat)
+  | punish (authOk : Bool) (a : Addr) (rewardee : Option Addr)
+  | transferOwner (signer : Addr) (ra : Nat) (newOwner : Addr)
+  | setSeqParams (authOk : Bool) (sp : SeqParams)
   | begin_ (dt : Nat)
   | end_ (fails : List (Nat × Nat))
   deriving Repr, Inhabited
@@ -795,6 +845,9 @@ def apply (s : St) : Op → M St
   | .update m => updateState s m
   | .fraud au ra h rev p rw => fraud s au ra h rev p rw
   | .obsolete au vs => markObsolete s au vs
+  | .punish au a rw => punishProposal s au a rw
+  | .transferOwner sg ra no => transferOwner s sg ra no
+  | .setSeqParams au sp => setSeqParams s au sp
   | .begin_ dt => .ok (beginBlock s dt)
   | .end_ f => .ok (endBlock s f)
 
@@ -804,7 +857,7 @@ def step (s : St) (o : Op) : St × Option Err :=
   | .error e => (s, some e)
 
 def init (p : Params) : St :=
-  { h := 1, t := 0, p := p, ras := [], seqs := [], queue := [], seqH := [], lev := [], obsolete := [],
+  { h := 1, t := 0, p := p, sqp := p.seq, ras := [], seqs := [], queue := [], seqH := [], lev := [], obsolete := [],
     nq := [], bal := [], modBal := 0, burned := 0 }
 
 def run (p : Params) (ops : List Op) : St := ops.foldl (fun s o => (step s o).1) (init p)
